@@ -444,4 +444,52 @@ def predsJS (E : Env) (j : JS) : Res Preds :=
       isBoolean := kindNum j == 4, isNumber := kindNum j == 2, isString := kindNum j == 3,
       isObject := kindNum j == 5, isPrimitive := !(kindNum j == 5), isNaN := n }
 
+/-! ### Value.Call / Object.Call / Otto.Call (value.go:101, otto.go:662, otto.go:536) -/
+
+/-- the `this` handed to [[Call]]: the probe's own object, or a Value -/
+inductive CallThis
+  | self
+  | val (j : JS)
+deriving DecidableEq, Inhabited
+
+/-- how the call is made through the Go API.  `member` = the callee is written `obj.probe` (else `probe`). -/
+inductive Path
+  | valueCall (this : Option GoVal)        -- fn.Call(this, args…): this = ToValue(g), or the object itself (none)
+  | objectCall                             -- obj.Call("probe", args…)
+  | ottoCallNil (member : Bool)            -- vm.Call(src, nil, args…)
+  | ottoCallThis (member : Bool) (this : GoVal)   -- vm.Call(src, this, args…), this ≠ nil
+deriving DecidableEq, Inhabited
+
+/-- the thisValue each path passes to function.call -/
+def apiThis : Path → Res CallThis
+  | .valueCall none => .ok .self
+  | .valueCall (some g) => (toValue g).map .val
+  | .objectCall => .ok .self                                   -- `function.Call(o.Value(), …)`
+  | .ottoCallNil member => .ok (if member then .self else .val jsUndef)
+      -- otto.go:551: `source()` is compiled and evaluated as a call expression, so `this` is the reference base
+  | .ottoCallThis _ g => (toValue g).map .val                   -- otto.go:569 `o.ToValue(this)`, then fn.Call(val, …)
+
+/-- what a function body observes as `this` -/
+inductive ThisObs
+  | global
+  | self
+  | boxed (v : View)       -- a wrapper object whose [[PrimitiveValue]] is v
+deriving DecidableEq, Repr, Inhabited
+
+/-- enterFunctionScope (runtime.go:93): undefined/null -> the global object, else toObject(this) -/
+def enterThis (E : Env) : CallThis → Res ThisObs
+  | .self => .ok .self
+  | .val (.prim .undef) => .ok .global
+  | .val (.prim .null) => .ok .global
+  | .val (.prim v) => (viewJS E (.prim v)).map .boxed
+  | .val _ => .err                                            -- float32 payloads and objects: not covered here
+
+def argViews (E : Env) : List GoVal → Res (List View)
+  | [] => .ok []
+  | g :: r => ((toValue g).bind (viewJS E)).bind fun v => (argViews E r).map fun vs => v :: vs
+
+/-- observation of an API call: (this, arguments) as the callee sees them -/
+def apiCall (E : Env) (p : Path) (args : List GoVal) : Res (ThisObs × List View) :=
+  ((apiThis p).bind (enterThis E)).bind fun t => (argViews E args).map fun vs => (t, vs)
+
 end OttoVerif.C15
